@@ -271,6 +271,50 @@ def run_schedules(chk: Check, tier: str) -> None:
                                "tasks": [t[0] for t in TASK_POOL[:2]]})
 
 
+def judge_msg(rec, opts):
+    """Message templates (LiquidMsg.tla): render_async prints the same text and asks the catalog for the
+    same things in the same order as render, with plain data and with data that suspends."""
+    from liquid2 import Environment
+    from liquid2.exceptions import LiquidError
+
+    from .c15 import Catalog, shape
+    from .sched import drive
+    env = opts.get("_env")
+    if env is None:
+        env = opts["_env"] = Environment()
+    try:
+        t = env.from_string(rec["src"])
+    except LiquidError:
+        return []
+    out = []
+    for n in (0, 1, 2):
+        base = {"m": "Hello", "pl": "Hellos", "cx": "vctx", "n": n, "yes": True, "no": False}
+
+        def run(mode):
+            cat = Catalog()
+            data = dict(base, translations=cat)
+            try:
+                if mode == "sync":
+                    text = t.render(**data)
+                else:
+                    text = drive(lambda: t.render_async(**data))
+            except LiquidError as e:
+                text = "error:" + type(e).__name__
+            return text, cat.calls
+        s, a = run("sync"), run("async")
+        if s != a:
+            out.append((f"async-differs:translate:{shape(rec)}", {"src": rec["src"], "n": n, "sync": s, "async": a}))
+            break
+    return out
+
+
+def _judge_msg(rec, opts):
+    return judge_msg(rec, _MOPTS)
+
+
+_MOPTS: dict = {}
+
+
 def check(tier: str) -> int:
     chk = Check("C03", tier)
     chk.assumptions += ["await points are those of the harness's pausing loader and async drops (one suspension per access)",
@@ -279,7 +323,7 @@ def check(tier: str) -> int:
     plans = [("MC_Sites", "sites", {}, 2, 3, True), ("MC_Scopes", "scopes", {}, 2, 2, True), ("MC_Flow", "flow", {}, 1, 2, False),
              ("MC_Loops", "loops-single", {"Variant": '"single"'}, 1, 1, False), ("MC_Loops", "loops-nest", {"Variant": '"nest"'}, 2, 2, False),
              ("MC_Exprs", "exprs", {}, 1, 2, True), ("MC_Lambda", "lambda", {}, 4, 4, False), ("MC_Undef", "undef", {"Variant": '"single"'}, 1, 1, False),
-             ("MC_Bool", "bool", {"Variant": '"ops"'}, 1, 1, False)]
+             ("MC_Bool", "bool", {"Variant": '"ops"'}, 1, 1, False), ("MC_Static", "static", {}, 3, 3, True)]
     for module, name, consts, q, t, analyze in plans:
         r = gen.run_focus(chk, module, name, max_top=t if tier == "thorough" else q, extra_constants=consts,
                           export="ExportInputs", invariants=(), timeout=6000)
@@ -287,6 +331,17 @@ def check(tier: str) -> int:
             continue
         try:
             gen.replay_file(chk, r.workdir / "out.ndjson", "harness.c03", "judge", {"analyze": analyze})
+        finally:
+            r.cleanup()
+    for variant, top in (("tags", 1), ("filters", 1)):
+        r = tlc.run("LiquidMsg", tlc.cfg_text(constants={"MaxTop": str(top), "Focus": f'"async-msg-{variant}"', "Variant": f'"{variant}"'},
+                                              invariants=["Export"]), tag=f"async-msg-{variant}", timeout=3000)
+        try:
+            if r.error:
+                chk.machinery_error = r.error
+                continue
+            chk.tlc(r, f"message templates sync vs async ({variant})")
+            gen.replay_file(chk, r.workdir / "out.ndjson", "harness.c03", "_judge_msg")
         finally:
             r.cleanup()
     run_schedules(chk, tier)
